@@ -82,6 +82,8 @@ type Exec struct {
 	Incon       []string
 	Stats       Stats
 	MaxSteps    int
+	termLabel   string // verifnd.Terminates obligation in force
+	termBudget  int
 	MaxDecisions int
 	Harness     string
 	FnSeen      map[*ssa.Function]bool
